@@ -52,12 +52,17 @@ def trees(draw, max_depth=3, unique_stems=True, bytecode=False):
                 base = draw(st.sampled_from(['mod', 'tests_', 'test_', 'orph', 'x']))
                 s = stem(base)
                 shape = draw(st.sampled_from(['py+pyc', 'pyc', 'pyo', 'py+pyo', 'pyc+pyo', 'pyc.bak', 'PYC', 'py+pyc+pyo',
-                                               'dotpyc', 'pyc-dir', 'pycx', 'txt']))
+                                               'dotpyc', 'pyc-dir', 'pycx', 'txt', 'py+pyc+orig', 'py+pyo+backups',
+                                               'pyc+orig']))
                 out += {
                     'py+pyc': [s + '.py', s + '.pyc'], 'pyc': [s + '.pyc'], 'pyo': [s + '.pyo'],
                     'py+pyo': [s + '.py', s + '.pyo'], 'pyc+pyo': [s + '.pyc', s + '.pyo'], 'pyc.bak': [s + '.pyc.bak'],
                     'PYC': [s + '.PYC'], 'py+pyc+pyo': [s + '.py', s + '.pyc', s + '.pyo'], 'dotpyc': ['.pyc'],
                     'pyc-dir': [], 'pycx': [s + '.pycx', s + 'pyc'], 'txt': [s + '.txt'],
+                    # files that sort between a source file and its bytecode (x.py < x.py.orig < x.pyc)
+                    'py+pyc+orig': [s + '.py', s + '.pyc', s + '.py.orig'],
+                    'py+pyo+backups': [s + '.py', s + '.pyo', s + '.py.bak', s + '.py~', s + '.pyi'],
+                    'pyc+orig': [s + '.pyc', s + '.py.orig'],
                 }[shape]
                 if shape == 'pyc-dir':
                     out.append(('dir', s + '.pyc'))
